@@ -15,6 +15,10 @@ NA = {
  "C19": "strategy applicability is a pure function of the basis",
 }
 CHECKS = {
+ "C08": dict(engine="histsim+allocsim", category="exploration", design_ref="DESIGN.md section 3 / C08",
+   text="Seeded search over histories of hash / set / dict / comparison / sort operations on a pool of Perm, MeshPatt, Bivincular/Vincular/CovincularPatt, Basis and MeshBasis objects (most with an equal twin built by another route), with allocation-history faults between any two observations: slot objects of chosen pymalloc size classes held and released, temporaries churned, deep recursion, gc, equal objects rebuilt, and id reuse (an object freed and a different one built at its address). Invariants after every step: first-observed hash never changes, equality matches the abstract value both ways, equal implies equal hash, lookups through twins succeed, trichotomy / antisymmetry / transitivity / sort stability of the order, (length, lexicographic) order for permutations. Every run ends with all objects hashed before and after a block of every small size class is taken. Batches also run under two other PYTHONHASHSEED values.",
+   note="Trusted: abstract values computed from the JSON descriptors. The simulator chooses allocation events, not addresses: exposing an address-derived hash relies on pymalloc reusing a freed block (robust in practice). Cross-kind order (Perm vs mesh) is not demanded by the property and not checked.",
+   technique="deterministic simulation of operation histories with allocation-history fault injection (allocsim), seeded search, abstract-value oracle"),
  "C01": dict(engine="histsim", category="exploration", design_ref="DESIGN.md section 3 / C01",
    text="Seeded search over search histories on shared pattern objects: occurrence generators are live tasks advanced in seeded interleavings (several generators of one pattern object on different targets at once), mixed with contains / avoids / avoids_set / in / counts / contained_in / avoided_by, with the per-object search-table memo flushed, pre-warmed, copied and pickled; every listing, prefix, boolean and count is compared with the definition (all index combinations filtered by order-isomorphism). In addition the whole bounded input domain (patterns <= 4 x targets <= 6 in quick, <= 5 x <= 7 in thorough) is enumerated completely, each pattern object reused for all targets. Histories are sampled, not proved.",
    note="Trusted: ref/patterns.py (combinations + order-isomorphism, pinned by hand-checked listings). Lengths bounded as stated.",
@@ -37,6 +41,7 @@ def build(claimed):
                "source_commits": [], "add_only": True},
      "engines": [
        {"name": "threadsim", "path": "sim/threadsim.py", "serves_properties": ["C07"], "kind_free_text": "deterministic scheduler for real threads: baton passing, sys.settrace opcode pre-emption, SimLock, recorded schedule segments"},
+       {"name": "allocsim", "path": "sim/allocsim.py", "serves_properties": ["C08"], "kind_free_text": "allocation-history injector: held/released slot objects per pymalloc size class, churn, recursion, gc, id reuse"},
        {"name": "histsim", "path": "sim/histsim.py", "serves_properties": ["C01", "C02", "C08", "C09", "C13", "C20"], "kind_free_text": "single-thread cooperative simulator: seeded operation histories interleaved with live library iterators and memo/alloc/I-O faults"},
        {"name": "simfs", "path": "sim/simfs.py", "serves_properties": ["C20"], "kind_free_text": "in-memory file system with durable/volatile layers and a per-I/O-call fault plan"},
      ],
